@@ -76,7 +76,9 @@ def _spec_hmac(I, args, fr):
     st = I.st
     f = z3.Function("uf_hmac", smt.Seq, smt.Seq, smt.Int, smt.Seq)
     ds = z3.Function("uf_digest_size", smt.Int, smt.Int)
-    t = f(ropes.seq_term(st, args[0]), ropes.seq_term(st, args[1]), zint(args[2].t))
+    from pyvc.values import VNone
+    key = smt.sempty if isinstance(args[0], VNone) else ropes.seq_term(st, args[0])     # (a None key is excluded by `requires`)
+    t = f(key, ropes.seq_term(st, args[1]), zint(args[2].t))
     st.assume(smt.slen(t) == ds(zint(args[2].t)))
     return VSeq([Seg("A", t, ds(zint(args[2].t)))], "bytes")
 
@@ -294,8 +296,8 @@ def send_contract(mode, bs, compress=False):
         "nonempty_message": "len(data.packet.getvalue()) >= 1 and len(data.packet.getvalue()) < %s" % ("2**30" if compress else "2**32 - 300"),
         "compression": ("notnone(%scompress_engine_out)" if compress else "isnone(%scompress_engine_out)") % f,
         "mac_parameters": "True" if mode in ("none", "aead") else
-                          ("notnone(%smac_engine_out) and 0 <= %smac_size_out and %smac_size_out <= fn('digest_size', 'int', opaque_id(%smac_engine_out))"
-                           % (f, f, f, f)),
+                          ("notnone(%smac_engine_out) and notnone(%smac_key_out) and 0 <= %smac_size_out and %smac_size_out <= fn('digest_size', 'int', opaque_id(%smac_engine_out))"
+                           % (f, f, f, f, f)),
         "aead_nonce": ("notnone(%siv_out) and len(%siv_out) == 12 and %smac_size_out == 16" % (f, f, f)) if mode == "aead" else "True",
         "cipher_stream_block_aligned": "ghost('enc_pos') %% %d == 0" % bs,
     }
@@ -318,6 +320,15 @@ def send_contract(mode, bs, compress=False):
         ens["nonce_advanced"] = "%siv_out == old(%siv_out)[0:4] + fn('ctr_inc', 'bytes', old(%siv_out)[4:])" % (f, f, f)
     else:
         ens["nonce_untouched"] = "same_value(%siv_out, old(%siv_out))" % (f, f)
+    # C10: traffic accounting and the re-key request
+    hit = "(%ssent_packets >= self.REKEY_PACKETS or %ssent_bytes >= self.REKEY_BYTES)" % (f, f)
+    ens["sent_traffic_counted"] = ("%ssent_packets == old(%ssent_packets) + 1 and %ssent_bytes == old(%ssent_bytes)"
+                                   " + len(ghost('tx')) - len(old(ghost('tx')))" % (f, f, f, f))
+    ens["rekey_requested_once_a_threshold_is_reached"] = "%sneed_rekey == (old(%sneed_rekey) or %s)" % (f, f, hit)
+    ens["overflow_allowance_restarts_only_when_rekey_is_first_requested"] = (
+        "(%(f)sreceived_packets_overflow == 0 and %(f)sreceived_bytes_overflow == 0) if (not old(%(f)sneed_rekey) and %(f)sneed_rekey)"
+        " else (%(f)sreceived_packets_overflow == old(%(f)sreceived_packets_overflow)"
+        " and %(f)sreceived_bytes_overflow == old(%(f)sreceived_bytes_overflow))" % dict(f=f))
     raises = {"EOFError": "True", "ProxyCommandFailure": "True",
               "SSHException": "not self._initial_kex_done and old(%ssequence_number_out) == 2**32 - 1" % f}
     if mode == "aead":
@@ -350,8 +361,8 @@ def read_contract(mode, bs, compress=False):
         "mode": MODE_REQ[mode] % dict(f=f, d="in"),
         "block_size": "%sblock_size_in == %d" % (f, bs),
         "mac_parameters": ("%smac_size_in == 0" % f) if mode == "none" else ("%smac_size_in == 16" % f) if mode == "aead" else
-                          ("notnone(%smac_engine_in) and 0 < %smac_size_in and %smac_size_in <= fn('digest_size', 'int', opaque_id(%smac_engine_in))"
-                           % (f, f, f, f)),
+                          ("notnone(%smac_engine_in) and notnone(%smac_key_in) and 0 < %smac_size_in and %smac_size_in <= fn('digest_size', 'int', opaque_id(%smac_engine_in))"
+                           % (f, f, f, f, f)),
         "aead_nonce": ("notnone(%siv_in) and len(%siv_in) == 12" % (f, f)) if mode == "aead" else "True",
         "compression": ("notnone(%scompress_engine_in) and opaque_id(%scompress_engine_in) != ghost('peer_z') - 1 + 1 - 0"
                         if False else ("notnone(%scompress_engine_in)" if compress else "isnone(%scompress_engine_in)")) % f,
@@ -380,6 +391,20 @@ def read_contract(mode, bs, compress=False):
         ens["nonce_advanced"] = "%siv_in == old(%siv_in)[0:4] + fn('ctr_inc', 'bytes', old(%siv_in)[4:])" % (f, f, f)
     else:
         ens["nonce_untouched"] = "same_value(%siv_in, old(%siv_in))" % (f, f)
+    # C10: traffic accounting, the re-key request, and the allowance for a peer that does not re-key
+    raw = "(%s + %smac_size_in)" % (LEN, f)
+    hit = "(%sreceived_packets >= self.REKEY_PACKETS or %sreceived_bytes >= self.REKEY_BYTES)" % (f, f)
+    ens["received_traffic_counted"] = ("%sreceived_packets == old(%sreceived_packets) + 1"
+                                       " and %sreceived_bytes == old(%sreceived_bytes) + %s" % (f, f, f, f, raw))
+    ens["overflow_counted_and_below_the_allowance_while_rekey_is_pending"] = (
+        "implies(old(%(f)sneed_rekey), %(f)sneed_rekey"
+        " and %(f)sreceived_packets_overflow == old(%(f)sreceived_packets_overflow) + 1"
+        " and %(f)sreceived_bytes_overflow == old(%(f)sreceived_bytes_overflow) + %(raw)s"
+        " and %(f)sreceived_packets_overflow < self.REKEY_PACKETS_OVERFLOW_MAX"
+        " and %(f)sreceived_bytes_overflow < self.REKEY_BYTES_OVERFLOW_MAX)" % dict(f=f, raw=raw))
+    ens["rekey_requested_once_a_threshold_is_reached"] = (
+        "implies(not old(%(f)sneed_rekey), %(f)sneed_rekey == %(hit)s"
+        " and implies(%(f)sneed_rekey, %(f)sreceived_packets_overflow == 0 and %(f)sreceived_bytes_overflow == 0))" % dict(f=f, hit=hit))
     ens["decompressor_advanced"] = "ghost('u_count') == old(ghost('u_count')) + %d" % (1 if compress else 0)
     OVER = ("(old(%sneed_rekey) and (old(%sreceived_packets_overflow) + 1 >= self.REKEY_PACKETS_OVERFLOW_MAX"
             " or old(%sreceived_bytes_overflow) + %s + %smac_size_in >= self.REKEY_BYTES_OVERFLOW_MAX))" % (f, f, f, LEN, f))
